@@ -17,8 +17,11 @@ RULE = (
     "flux) or '--> met' (uptake = positive flux), coefficient 1 or 2, recognised through the external compartment "
     "(ids e / out / extracellular), with or without an SBO:0000627 annotation (string, lower case, list), or by the "
     "annotation alone on a cytosolic metabolite; import/export capacities in {0,1,2.5,5,10,100}, some exchanges with a "
-    "forced export; transports e<->c (reversible / one-way), a biomass-like objective consuming 1-3 cytosolic "
-    "metabolites and optionally releasing a by-product, 0-3 conversions and a random reaction between the cytosolic "
+    "forced export, sometimes a second exchange on the same external metabolite written the other way round (never more "
+    "than 6 exchanges); transports e<->c (reversible / one-way, capacity 10-1000), a biomass-like objective (plus, rarely, a "
+    "second coefficient on a non-exchange reaction) consuming 1-3 cytosolic "
+    "metabolites and optionally releasing a by-product, 0-3 conversions (often a substitute nutrient -> required "
+    "nutrient) and a random reaction between the cytosolic "
     "metabolites, 0-2 distractor boundaries that are NOT exchanges (DM_/SK_ on cytosolic metabolites, 'sink' ids and "
     "SBO demand/sink annotations on external metabolites); reaction order permuted; all build paths. "
     "(a) set/get cases: 1-3 steps, each 'model.medium = sub-dictionary of the exchanges' (any subset incl. empty/all, "
@@ -28,8 +31,8 @@ RULE = (
     "(public view + raw GLPK read-back) against a fresh build that carries the expected bounds; the getter must "
     "return exactly {id: import bound} of the exchanges with positive import bound, before and after every step; "
     "self-assignment must be the identity. "
-    "(b) minimal_medium cases: min_objective_value = 0.1/0.25/0.5/0.9/1.0 x the exact optimum, 1.5 x optimum / "
-    "optimum+1 (unreachable) or the default 0.1; exports on/off; minimize_components in {False, True, 2, 3}; "
+    "(b) minimal_medium cases: min_objective_value = 0.1/0.25/0.4/0.5/0.9/1.0 x the exact optimum, 1.5 x optimum / "
+    "optimum+1 (unreachable), the default 0.1, or 0.1/1 on models that cannot grow; exports on/off; minimize_components in {False, True, 2, 3}; "
     "open_exchanges in {False, True, 5, 20, 100}. Oracle (exact rational LPs on the spec, exchanges opened the "
     "documented way): None iff 'objective >= value' is infeasible (dead band 1e-4 around the optimum); every returned "
     "medium is the exchange profile of an exact feasible flux distribution reaching the value (listed imports and, "
@@ -37,7 +40,8 @@ RULE = (
     "and - applied as medium through the independent bound table and, separately, through Model.medium on a fresh "
     "build - yields an exact optimum >= value - 1e-6; default mode: sum of imports equals the exact LP minimum; "
     "minimize_components: the number of components equals the exact minimum over all subsets of exchanges "
-    "(2^n exact LPs), alternatives are each sufficient, of that size, pairwise different and at most n. "
+    "(exact LP per subset, ascending size), alternatives are each sufficient, of that size, pairwise different, at most n, and "
+    "fewer than n only if no further minimal medium with an unseen component exists. "
     "Non-trivial: >= 3 exchanges with both written directions present, and (set/get) an assignment that both sets a "
     "listed import and closes an open unlisted one, or (minimal) the medium needs >= 2 components or has an "
     "alternative of the same size, or the value is unreachable on a model that can grow."
@@ -59,8 +63,10 @@ ASSUMPTIONS = [
     "count are only asserted when the exact optimum (of the model, of a subset) is farther than 1e-4*max(1,|x|) from "
     "the requested value; a returned import below 1e-6 * largest exchange bound (documented MILP detection limit) "
     "makes the component count undetermined.",
-    "Alternatives (minimize_components=n): 'up to n' is not read as a completeness claim; only validity, equal size, "
-    "pairwise difference and the upper limit n are asserted.",
+    "Alternatives (minimize_components=n): 'up to n alternative solutions' is read in its most lenient form: validity, equal "
+    "size, pairwise difference, at most n, and - only when fewer than n are returned - that no sufficient subset of the "
+    "same size exists which uses an exchange absent from every returned medium (the documented search excludes the union "
+    "of the components seen so far, so media that merely recombine seen components are not demanded).",
     "That minimal_medium leaves the model unchanged belongs to C13 and is not asserted here.",
 ]
 TOL = 1e-6
@@ -369,14 +375,37 @@ def profile_feasible(spec, bounds, ex, medium, value, exports):
     return lp.solve({}, "max").status == "optimal"
 
 
-def subset_optima(spec, bounds, ex):
-    """{frozenset(allowed imports): exact max objective or None} for every subset of the exchanges."""
-    ids = list(ex)
-    out = {}
-    for k in range(len(ids) + 1):
-        for sub in itertools.combinations(ids, k):
-            out[frozenset(sub)] = max_objective(spec, close_imports_outside(bounds, ex, set(sub)))
-    return out
+class SubsetOptima:
+    """Exact maximum of the objective when only a given subset of the exchanges may import (memoised, on demand).
+    The maximum is monotone in the subset, which the enumeration by ascending size relies on."""
+
+    def __init__(self, spec, bounds, ex):
+        self.spec, self.bounds, self.ex = spec, bounds, ex
+        self.ids = list(ex)
+        self.memo = {}
+
+    def value(self, sub):
+        sub = frozenset(sub)
+        if sub not in self.memo:
+            self.memo[sub] = max_objective(self.spec, close_imports_outside(self.bounds, self.ex, sub))
+        return self.memo[sub]
+
+    def reaches(self, sub, thr):
+        g = self.value(sub)
+        return g is not None and g >= thr
+
+    def of_size(self, k, thr):
+        """All subsets of size k whose optimum is >= thr."""
+        return [frozenset(sub) for sub in itertools.combinations(self.ids, k) if self.reaches(sub, thr)]
+
+    def min_size(self, thr):
+        """Smallest number of importing exchanges with which the objective reaches thr (None if not even all do)."""
+        if not self.reaches(self.ids, thr):
+            return None
+        for k in range(len(self.ids) + 1):
+            if any(self.reaches(sub, thr) for sub in itertools.combinations(self.ids, k)):
+                return k
+        raise AssertionError("unreachable")
 
 
 # ------------------------------------------------------------------------------------------
@@ -623,7 +652,7 @@ def check_minimal(case, ctx, model, ex, classes, rich):
     # a request inside the dead band above the optimum was accepted by solver tolerance: the medium then has to reach the optimum
     target = min(exact_value, opt)
     obj_tol = F(TOL) * max(1, abs(exact_value))
-    subsets = subset_optima(spec, bounds, ex) if mc else None
+    subsets = SubsetOptima(spec, bounds, ex) if mc else None
     supports = []
     for i, med in enumerate(media):
         tag = f"{call}: medium #{i} {med}"
@@ -652,7 +681,8 @@ def check_minimal(case, ctx, model, ex, classes, rich):
                      f"{'idle' if exports else 'not importing'} (exact optimum {float(opt)!r}; imports alone "
                      f"{'are' if imports_only else 'are not'} consistent)")
         # (2) applied as medium (reference semantics of the setter) the requested value is reached
-        applied = ref_set_medium(bounds, ex, list(pos.items()))
+        #     (each reported import widened by the flux tolerance: the reported floats carry rounding in the last digit)
+        applied = ref_set_medium(bounds, ex, [(rid, F(v) + F(TOL) * max(1, F(v))) for rid, v in pos.items()])
         reach = max_objective(spec, applied)
         if reach is None or reach < target - obj_tol:
             _v("minimal:insufficient", f"{tag}: with these import bounds and all other imports closed the exact optimum is "
@@ -680,16 +710,15 @@ def check_minimal(case, ctx, model, ex, classes, rich):
                 _v("minimal:total-below-minimum", f"{tag}: total import {total!r} is below the exact minimum {float(lo)!r} "
                                                   f"needed for objective >= {value!r}")
         else:
-            k_lo = min((len(s) for s, g in subsets.items() if g is not None and g >= exact_value - band), default=None)
-            k_hi = min((len(s) for s, g in subsets.items() if g is not None and g >= exact_value + band), default=None)
+            k_lo, k_hi = subsets.min_size(exact_value - band), subsets.min_size(exact_value + band)
             big_m = max(abs(b) for rid in ex for b in bounds[rid])
             if any(v < 1e-6 * big_m for v in pos.values()) or k_lo != k_hi:
                 undetermined += 1
                 classes.append("component-count-undetermined")
             elif len(pos) != k_lo:
-                witness = sorted(min((s for s, g in subsets.items() if g is not None and g >= exact_value + band), key=lambda s: (len(s), sorted(s))))
+                witness = sorted(min(subsets.of_size(k_lo, exact_value + band), key=sorted))
                 _v("minimal:components-not-minimal", f"{tag} has {len(pos)} components {sorted(pos)} but the exact minimum number is "
-                                                     f"{k_lo}: imports through {witness} alone reach {float(subsets[frozenset(witness)])!r} "
+                                                     f"{k_lo}: imports through {witness} alone reach {float(subsets.value(witness))!r} "
                                                      f">= {value!r}")
     for i, j in itertools.combinations(range(len(media)), 2):
         if supports[i] == supports[j]:
@@ -704,15 +733,17 @@ def check_minimal(case, ctx, model, ex, classes, rich):
         if len(media) < n_alt and "component-count-undetermined" not in classes:
             union = frozenset().union(*supports)
             k = len(supports[0])
-            missed = sorted(sorted(s) for s, g in subsets.items() if len(s) == k and g is not None and g >= exact_value + band and not s <= union)
+            missed = sorted(sorted(s) for s in subsets.of_size(k, exact_value + band) if not s <= union)
             if missed:
-                classes.append("alternative-missed-weak")
+                _v("minimal:alternative-missed", f"{call} returned {len(media)} of the {n_alt} requested media ({[sorted(x) for x in supports]}) "
+                                                 f"although imports through {missed[0]} alone (same size {k}, with a component used by none "
+                                                 f"of the returned media) reach {float(subsets.value(missed[0]))!r} >= {value!r}")
     if not mc:
         nontrivial = rich and len(supports[0]) >= 2
         classes.append(f"components-{min(len(supports[0]), 3)}{'+' if len(supports[0]) >= 3 else ''}")
     else:
         k = len(supports[0])
-        same = [s for s, g in subsets.items() if len(s) == k and g is not None and g >= exact_value + band]
+        same = subsets.of_size(k, exact_value + band)
         if len(same) >= 2:
             classes.append("alternative-exists")
         nontrivial = rich and (k >= 2 or len(same) >= 2)
@@ -743,8 +774,8 @@ def search_phase(ctx):
 
 def phases(tier):
     if tier == "quick":
-        return [Phase("medium", search_phase, shards=8, params={"max_examples": 300, "budget_s": 55, "setget_shards": 3})]
-    return [Phase("medium", search_phase, shards=16, params={"max_examples": 1500, "budget_s": 500, "setget_shards": 5})]
+        return [Phase("medium", search_phase, shards=8, params={"max_examples": 300, "budget_s": 50, "setget_shards": 3})]
+    return [Phase("medium", search_phase, shards=16, params={"max_examples": 2500, "budget_s": 480, "setget_shards": 5})]
 
 
 CHECKS = {"medium": check_case}
